@@ -221,7 +221,7 @@ func (sfd *StatusFileData) Save(filename string) error {
 	if err != nil {
 		return err
 	}
-	verifStatusWrite(filename, -1, -1, sfd.State, sfd.StdoutSize)
+	verifStatusWrite(filename, -1, -1, sfd.State, sfd.StdoutSize, sfd.Detail)
 	verifCrashPoint("save.after_open_truncate")
 	err = sfd.saveToFile(file)
 	verifCrashPoint("save.after_write")
@@ -323,7 +323,7 @@ func (sfd *StatusFileData) UpdateFullStatus(filename string, statusFunc func(*St
 	verifCrashPoint("update.after_load")
 	verifOldState, verifOldSize := sfd.State, sfd.StdoutSize
 	statusFunc(sfd)
-	verifStatusWrite(filename, verifOldState, verifOldSize, sfd.State, sfd.StdoutSize)
+	verifStatusWrite(filename, verifOldState, verifOldSize, sfd.State, sfd.StdoutSize, sfd.Detail)
 	_, err = file.Seek(0, 0)
 	if err != nil {
 		return err
